@@ -58,7 +58,16 @@ add("C33", "exploration",
     "must list the author as an individual with Manage level (or the operation removes its own author, who "
     "is listed), the target must be absent (add) / listed (remove, promote, demote), and a Create must not "
     "name a group that already exists there. Refused calls must leave answers, heads and the stored state "
-    "unchanged; every member a replica reports must be reachable through Create/Add operations it accepted.",
+    "unchanged; every member a replica reports must be reachable through Create/Add operations it accepted. "
+    "Independent bookkeeping: when the causal past of an accepted operation is conflict-free (no two "
+    "concurrent operations of one group share a target, target the other's author or create the group - "
+    "then nothing can be filtered and operations on different targets commute; every 4th history is fully "
+    "linear) the prefix replica's root_members of every group must equal the membership, level and "
+    "conditions that the accepted create/add/remove/promote/demote operations themselves declare (~10^4 "
+    "such comparisons per quick run). Managers regularly remove a member and re-add it with a different "
+    "access, after which that member authors an add/remove regardless of its rights (~10^3 per quick run). "
+    "A state-level stage runs 4e4 / 1e6 random sequences of the real create/add/remove/promote/demote (hook "
+    "H6, biased to remove -> re-add with another level) against the same bookkeeping.",
     "The converse (authorised => accepted) is not judged. Panics are recorded and count only when the "
     "operation targets a group that exists at its dependencies (operations on unknown groups panic in "
     "apply_action: recorded, not judged). With conditions a prefix replica whose own view of the author "
